@@ -54,8 +54,12 @@ def alloc_sub(chk, rng, w, wid, mode, plan=None, unit=None):
     ratios = []
     rvals = []
     if rkind == "qty":
-        lin = [t for t in w.types.values() if t.has_ref and
-               t.name != w.units[u].tname]
+        # quantities of another type, or (one time in three) of the
+        # quantity's own type
+        own = w.units[u].tname
+        lin = [t for t in w.types.values() if t.has_ref and t.name != own]
+        if w.types[own].has_ref and (not lin or rng.random() < 0.33):
+            lin = [w.types[own]]
         if not lin:
             rkind = "int"
         else:
@@ -86,7 +90,8 @@ def alloc_sub(chk, rng, w, wid, mode, plan=None, unit=None):
             rvals.append(rx)
     disperse = rng.random() < 0.5
     kw = {}
-    args = [["l", ratios]]
+    # any sized collection will do
+    args = [[rng.choice(["l", "l", "t"]), ratios]]
     if not disperse:
         kw["disperse_rounding_error"] = ["b", False]
     elif rng.random() < 0.5:
